@@ -88,6 +88,11 @@ class BusWorld(World):
     def on_bus_fast(self, tg: Telegram) -> None:
         p = tg.payload
         if not isinstance(tg.tpci, T.TDataBroadcast):
+            # a device that refuses connections and answers at once: its T_Disconnect arrives together with the confirmation of our T_Connect
+            if isinstance(tg.tpci, T.TConnect):
+                for d in self.devices:
+                    if d.fast and d.behaviour == "refuse" and d.address == tg.destination_address:
+                        self.deliver(Telegram(destination_address=CLIENT, source_address=IndividualAddress(d.address.raw), tpci=T.TDisconnect()))
             return
         for d in self.devices:
             # the confirmation says the frame has been on the bus: address writes have reached the devices by then
@@ -124,7 +129,8 @@ class BusWorld(World):
                 continue
             if isinstance(tg.tpci, T.TConnect):
                 if d.behaviour == "refuse":
-                    self.from_device(d, T.TDisconnect())
+                    if not d.fast:
+                        self.from_device(d, T.TDisconnect())
                 else:
                     d.connected, d.seq_in, d.seq_out = True, 0, 0
             elif isinstance(tg.tpci, T.TDisconnect):
